@@ -2395,8 +2395,11 @@ where
             break;
         }
         if removed_node {
-            // decrement count
-            self.add_count(-1, Some(bin_count), guard);
+            // decrement count. Like every other removal (see `replace_node`) this passes no resize
+            // hint: with a hint `add_count` compares the count with the resize threshold, and if
+            // the map is at or above it (inserts that raced with the final phase of a resize started
+            // by `reserve` leave it there) the call that _removed_ an entry would grow the table.
+            self.add_count(-1, None, guard);
         }
         new_val.map(|linked| &**linked)
     }
